@@ -25,7 +25,7 @@ from .. import gen, probes
 from ..core import Check, jdigest, result_template
 from ..oracles import geom, kepler
 from ..run import cleanup, fmt_ts, history_digest, parse_ts, wrap_method
-from .common import drive, generic_shrinks, raised_in_harness, time_info, variant
+from .common import drive, generic_shrinks, over, raised_in_harness, time_info, variant
 
 POS_TOL = 1e-6
 VEL_TOL = 1e-6
@@ -76,6 +76,7 @@ class C20(Check):
         "claimed for the orbit-determination clause only; the Lambert clause over all arcs is not applicable (pure function) - only the arcs visited by runs are checked",
         "noise off (numpy.random.randn -> 0) so that observations are exact; truth under two-body dynamics",
         "tolerances 1e-6 km and 1e-6 km/s + |v| * 8e-5 s / time-of-flight (the repo derives the time of flight from two Julian dates, each resolved to 40 us); spacing >= 40 % of a period, eccentricity >= 0.05, or an observation pair with the impulse between them (possible after a false maneuver alarm) is outside the clause and not judged",
+        "lambert_gauss (not one of the two solvers the statement names) may report 'did not converge' at any spacing; whatever any solver returns as a solution must be finite and be the orbit's state",
     ]
     real_components = ["EstimateAgent IOD hand-over", "LambertIOD.determineNewEstimateState (history from the output DB)", "lambertUniversal / lambertBattin / lambertGauss", "radarObs2eciPosition", "maneuver detection", "radar sensors"]
     stub_components = ["ray (rsim.simray)", "numpy.random.randn (zeros: noise-off profile)"]
@@ -165,7 +166,7 @@ class C20(Check):
                 d = float(np.linalg.norm(r["pos"] - truth[k][:3]))
                 mx = max(mx, d)
                 cnt["observation_inversions_checked"] = cnt.get("observation_inversions_checked", 0) + 1
-                if d > POS_TOL:
+                if over(d, POS_TOL):
                     viol.append({"clause": "observation-inversion", "key": "radarObs2eciPosition", "detail": f"noise-free radar observation of sensor {r['sensor']} at step {k} converts to a position {d:.3e} km from the true one"})
                     break
             res["tolerances"]["obs_to_eci_km"] = [mx, POS_TOL]
@@ -200,6 +201,12 @@ class C20(Check):
                 if frac > 0.3:
                     cnt["iod_spacing_30_to_40_percent_of_period"] = cnt.get("iod_spacing_30_to_40_percent_of_period", 0) + 1
                 where = f"step {k2}: {r['method']} on radar observations {k2 - k1} steps ({frac * 100:.1f} % of the period) apart, eccentricity {ecc:.4f}"
+                if r["method"] == "lambertGauss" and not r["converged"] and "did not converge" in str(r["message"]):
+                    # the statement names the universal-variable and Battin solvers; Gauss' fixed-point iteration diverges on
+                    # transfer angles beyond ~75 deg (Vallado alg. 57: for closely spaced vectors).  Saying so is correct;
+                    # returning a state that is not the orbit's (or not finite) is not
+                    cnt["gauss_reported_divergence"] = cnt.get("gauss_reported_divergence", 0) + 1
+                    continue
                 if not r["converged"] or r["state"] is None:
                     viol.append({"clause": "iod-did-not-return-a-state", "key": r["message"], "detail": f"{where}: orbit determination reported '{r['message']}'"})
                     continue
@@ -210,7 +217,7 @@ class C20(Check):
                 vel_tol = VEL_TOL + float(np.linalg.norm(x2[3:])) * 8e-5 / tof
                 mxp, mxv = max(mxp, dp / POS_TOL), max(mxv, dv / vel_tol)
                 cnt["iod_solutions_judged"] = cnt.get("iod_solutions_judged", 0) + 1
-                if dp > POS_TOL or dv > vel_tol:
+                if not (dp <= POS_TOL and dv <= vel_tol):   # also true for a non-finite state
                     viol.append({"clause": "iod-state-differs-from-truth", "key": r["method"], "detail": f"{where}: returned state is {dp:.3e} km / {dv:.3e} km/s from the true state"})
                     continue
                 # visited arc: the returned state, flown backwards over the time of flight, arrives at the first observation
@@ -218,7 +225,7 @@ class C20(Check):
                 if truth.get(k1) is not None:
                     db = float(np.linalg.norm(back[:3] - truth[k1][:3]))
                     cnt["lambert_arcs_visited"] = cnt.get("lambert_arcs_visited", 0) + 1
-                    if db > 1e-4 + float(np.linalg.norm(x2[3:])) * 8e-5 + vel_tol * tof:
+                    if not db <= 1e-4 + float(np.linalg.norm(x2[3:])) * 8e-5 + vel_tol * tof:
                         viol.append({"clause": "lambert-arc-not-reproduced", "key": r["method"], "detail": f"{where}: flying the solution back over the time of flight misses the first position by {db:.3e} km"})
             res["tolerances"]["iod_pos_ratio_to_limit(1e-6 km)"] = [mxp, 1.0]
             res["tolerances"]["iod_vel_ratio_to_limit(1e-6 km/s + |v|*8e-5 s/tof)"] = [mxv, 1.0]
